@@ -150,6 +150,11 @@ func scripts() []Script {
 	shared("shared-missing-inner", "{\n  \"pet\": @pet\n}", pet[:1], tagRule, shOps)
 	shared("shared-missing-inner", "@pet | @petName", pet[:2], tagRule, shOps)
 	shared("shared-other-root", "{\n  \"n\": @petName,\n  \"t\": \"u\" // {enum: @tags}\n}", pet[1:], tagRule, shOps)
+	// a root schema without an example value (empty text, comment only) that still gets the parsed types
+	// registered: nothing of that may reach the schemas loaded afterwards
+	shared("shared-empty-root", "# nothing here", pet, tagRule, [][]string{{"check", "example", "ast", "len"}, {"len", "check"}})
+	shared("shared-empty-root", "", pet[1:], tagRule, [][]string{{"check", "used"}})
+	shared("shared-empty-root", " \n ", pet[:2], nil, [][]string{{"example", "check"}})
 	inh := []sut.Named{{Name: "@base", Text: "{\n  \"id\": 1\n}"}, {Name: "@user", Text: "{ // {allOf: \"@base\"}\n  \"name\": \"n\"\n}"}}
 	shared("shared-allof-complete", "{\n  \"u\": @user\n}", inh, nil, shOps)
 	shared("shared-allof-missing-base", "{\n  \"u\": @user\n}", inh[1:], nil, shOps)
